@@ -182,24 +182,19 @@ def run(ctx, rep):
     rep.analysed(fk, g)
     dom = Q.dominators(g)
     sp = A.params(fk.node)[1]
-    pv = None
-    for n in A.walk(fk.node):
-        if isinstance(n, ast.Assign) and isinstance(n.targets[0], ast.Name) and A.find_calls(n.value, "os.fork"):
-            pv = n.targets[0].id
-    tests = [n for n in g.live if n.kind == "test" and pv and pv in A.names_loaded(n.ast)]
     okp = okc = False
-    if tests:
-        t = tests[0]
-        child_edge = "true" if A.src(t.ast).replace(" ", "") in ("%s==0" % pv, "0==%s" % pv) else "false"
-        par = Q.reach([s for s, l in t.succ if l != child_edge and l != "exc"], labels=("next", "true", "false"))
-        chi = Q.reach([s for s, l in t.succ if l == child_edge], labels=("next", "true", "false"))
-        pc = [n for n in par if n.ast is not None and n.kind == "stmt" and A.find_calls(n.ast, "%s.close" % sp)]
-        pd = [n for n in par if n.ast is not None and n.kind == "stmt" and (A.find_calls(n.ast, "self.clients.discard")
-                                                                            or A.find_calls(n.ast, "self.clients.remove"))]
+    fr_ = K.fork_regions(ctx, g)
+    if fr_ is not None:
+        _, chi, par, _ = fr_
+        chi_only = [n for n in chi if n not in par]
+        par_only = [n for n in par if n not in chi]
+        pc = [n for n in par_only if n.ast is not None and n.kind == "stmt" and A.find_calls(n.ast, "%s.close" % sp)]
+        pd = [n for n in par_only if n.ast is not None and n.kind == "stmt" and (A.find_calls(n.ast, "self.clients.discard")
+                                                                                 or A.find_calls(n.ast, "self.clients.remove"))]
         okp = bool(pc) and bool(pd)
-        cl = [n for n in chi if n.ast is not None and n.kind == "stmt" and A.find_calls(n.ast, "self.listener.close")]
-        cc = [n for n in chi if n.ast is not None and n.kind == "stmt" and A.find_calls(n.ast, "self.clients.clear")]
-        sv = [n for n in chi if n.ast is not None and n.kind == "stmt" and A.find_calls(n.ast, "self._authenticate_and_serve_client")]
+        cl = [n for n in chi_only if n.ast is not None and n.kind == "stmt" and A.find_calls(n.ast, "self.listener.close")]
+        cc = [n for n in chi_only if n.ast is not None and n.kind == "stmt" and A.find_calls(n.ast, "self.clients.clear")]
+        sv = [n for n in chi_only if n.ast is not None and n.kind == "stmt" and A.find_calls(n.ast, "self._authenticate_and_serve_client")]
         okc = bool(cl) and bool(cc) and bool(sv)
     rep.ob("R17.2", "ForkingServer: the parent closes its copy of the client socket and untracks it", okp,
            "sock.close(); self.clients.discard(sock)" if okp else "the parent keeps the client's descriptor open/tracked after fork", fk.loc)
